@@ -1,5 +1,6 @@
 import StorageModel.Driver.Common
 import StorageModel.C09.Universe
+import StorageModel.C09.ModelE
 /- model driver for C09: `run spec` reads case lines on stdin and prints one output line per case
    (spec = false: the engine model's output for the case's state; spec = true: the property's
    verdict on the *implementation's* observations, which the check appends after " @O ").
@@ -157,22 +158,37 @@ def stateOf (line : String) : Option (St × List (Name × Id × Name)) := do
 def schemaFor (line : String) : Schema :=
   if line.startsWith "tx1r " then uniSchema.reverse else uniSchema
 
+/-- one phase: the run WITH the failure exits of the code (`checkAllE`, C09/ModelE.lean; by
+    `Properties.C09.run_never_fails` it always completes, with the result of `checkAll`) -/
+def phase (S : Schema) (fix : Bool) (s : St) : Option (St × List Report) :=
+  match checkAllE S fix s with
+  | .ok s' rs => some (s', rs)
+  | .fail .. => none
+
 def step (line : String) : String :=
   match stateOf line with
   | none => "bad-case"
   | some (s0, h0) =>
     let S := schemaFor line
-    let p1 := checkAll S false s0
+    match phase S false s0 with
+    | none => "model-run-fails 1"
+    | some p1 =>
     let h1 := h0 ++ bucketsEnsured S p1.2
     let d0 := renderState s0 h0
     let d1 := renderState p1.1 h1
-    let p2 := checkAll S true p1.1
+    match phase S true p1.1 with
+    | none => "model-run-fails 2"
+    | some p2 =>
     let h2 := h1 ++ bucketsEnsured S p2.2
     let d2 := renderState p2.1 h2
-    let p3 := checkAll S false p2.1
+    match phase S false p2.1 with
+    | none => "model-run-fails 3"
+    | some p3 =>
     let h3 := h2 ++ bucketsEnsured S p3.2
     let d3 := renderState p3.1 h3
-    let p4 := checkAll S true p3.1
+    match phase S true p3.1 with
+    | none => "model-run-fails 4"
+    | some p4 =>
     let h4 := h3 ++ bucketsEnsured S p4.2
     let d4 := renderState p4.1 h4
     " | ".intercalate
@@ -225,12 +241,17 @@ def parseReport (t : String) : Option Report := do
   | "lkNoInverse", [] => mk .lkNoInverse
   | _, _ => none
 
+/-- the reports of one phase; the token `err` (CheckIntegrity RETURNED AN ERROR: the rest of that store's
+    run did not happen and its transaction was rolled back) is not a report — see `abortedIn` -/
 def parseReports (seg : String) (tag : String) : Option (List Report) :=
   if !seg.startsWith (tag ++ " ") then none
   else
     let body := (seg.drop (tag.length + 1)).toString
     if body = "." then some []
-    else ((body.splitOn " ").filter (· ≠ "")).mapM parseReport
+    else ((body.splitOn " ").filter (fun t => t ≠ "" && t ≠ "err")).mapM parseReport
+
+/-- did a `CheckIntegrity` call of this phase return an error -/
+def abortedIn (seg : String) : Bool := (seg.splitOn " ").contains "err"
 
 def parseD (seg : String) (tag : String) : Option St :=
   if !seg.startsWith (tag ++ " ") then none
@@ -303,8 +324,13 @@ def specStep (line : String) : String :=
         let leftD := inc2.filter fun d => !conflictB uniSchema d2 d
         let clause (name : String) (items : List String) : List String :=
           if items.isEmpty then [] else [name ++ "[" ++ ";".intercalate items ++ "]"]
+        -- "it reports every inconsistency", "a single run repairs every repairable inconsistency": a run
+        -- that returns an error does neither — it stops at the error and the caller rolls back
+        let aborted := (if abortedIn r1s then ["R1"] else []) ++ (if abortedIn r2s then ["R2"] else [])
+          ++ (if abortedIn r3s then ["R3"] else []) ++ (if abortedIn r4s then ["R4"] else [])
         let fails : List String :=
-          clause "sound" (unsound.map renderReport)
+          clause "aborted" aborted
+          ++ clause "sound" (unsound.map renderReport)
           ++ clause "complete" (unreported.map renderDisc)
           ++ clause "readonly" roBad
           ++ clause "fixsound" (fixUnsound.map renderReport)
